@@ -325,6 +325,10 @@ func runCase(c *driver.Ctx, class string, t *kit.Topology, rng *rand.Rand) {
 		c.Nontrivial(t.Canonical())
 	}
 	c.Distinct("shapes", t.Shape(), v.Valid)
+	if n := caseTwinPairs(t); n > 0 {
+		c.Observe("configs_with_case_only_twin_ids", 1)
+		c.Observe("case_only_twin_pairs_in_use", int64(n))
+	}
 
 	if !v.Valid {
 		c.Observe("invalid_configs", 1)
@@ -680,6 +684,36 @@ func addRouting(rng *rand.Rand, base *kit.Topology, class string) *kit.Topology 
 	return t
 }
 
+// caseTwinPairs counts pairs of ids in use (pipeline ids and, per kind and signal, component ids) that
+// differ only in letter case.
+func caseTwinPairs(t *kit.Topology) int {
+	groups := map[string]map[string]bool{}
+	add := func(scope, id string) {
+		k := scope + "|" + strings.ToLower(id)
+		if groups[k] == nil {
+			groups[k] = map[string]bool{}
+		}
+		groups[k][id] = true
+	}
+	for _, p := range t.Pipelines {
+		add("pipeline", p.ID())
+		for _, id := range p.Receivers {
+			add("r:"+string(p.Signal), id)
+		}
+		for _, id := range p.Processors {
+			add("p:"+p.ID(), id)
+		}
+		for _, id := range p.Exporters {
+			add("e:"+string(p.Signal), id)
+		}
+	}
+	n := 0
+	for _, g := range groups {
+		n += len(g) * (len(g) - 1) / 2
+	}
+	return n
+}
+
 func sum(m map[string]int) int {
 	n := 0
 	for _, v := range m {
@@ -750,6 +784,7 @@ func run(c *driver.Ctx) {
 			ConnModes:        rng.Intn(2) == 0,
 			RouteTo:          []float64{0, 0.5}[rng.Intn(2)],
 			FailingExporters: []float64{0, 0, 0.25}[rng.Intn(3)],
+			CaseTwins:        rng.Intn(4) == 0, // ids and pipeline names that differ only in letter case
 		}
 		if rng.Intn(6) == 0 {
 			opt.UniqueProcessors = true
@@ -774,7 +809,7 @@ func main() {
 	driver.Main(driver.Spec{
 		ID:    "C09",
 		Level: "exploration",
-		Rule: "a case is one seeded random service configuration (1–6 pipelines over the 4 signals, receivers/processors/exporters drawn from small id pools, kshared multi-signal receivers, connectors of 5 factory types with different supported signal pairs placed constructively incl. chains, fan-in, fan-out; 20 % carry a routing connector with 2–4 downstream pipelines that asks its router for a full / proper-subset / repeated-id (N entries) / unconnected-pipeline (N entries) / empty route; 40 % carry one injected defect: connector ring of length 1–4, back edge, unsupported pair, connector only as exporter/receiver) run through otelcol.NewCollector(...).Run with one payload injected at every receiver instance; " +
+		Rule: "a case is one seeded random service configuration (1–6 pipelines over the 4 signals, receivers/processors/exporters drawn from small id pools (a quarter of the cases with pools and pipeline names that differ only in letter case), kshared multi-signal receivers, connectors of 5 factory types with different supported signal pairs placed constructively incl. chains, fan-in, fan-out; 20 % carry a routing connector with 2–4 downstream pipelines that asks its router for a full / proper-subset / repeated-id (N entries) / unconnected-pipeline (N entries) / empty route; 40 % carry one injected defect: connector ring of length 1–4, back edge, unsupported pair, connector only as exporter/receiver) run through otelcol.NewCollector(...).Run with one payload injected at every receiver instance; " +
 			"distinct = canonical configuration (pipelines with component lists and referenced configs); non-trivial = at least 2 pipelines or a connector, or an invalid configuration",
 		Assumptions: []string{
 			"the reference model (lib/kit/oracle.go) computes validity, connector instances, path multisets, create counts from the configuration only; it shares no code with service/internal/graph",
